@@ -140,6 +140,7 @@ class Report:
         self.t0 = time.time()
         self.paths = 0
         self.solver_calls = 0
+        self.asserts = 0
         self.steps = 0
         self.infeasible = 0
         self.items = 0
@@ -166,6 +167,7 @@ class Report:
             return
         self.paths += r.get('paths', 0)
         self.solver_calls += r.get('solver_calls', 0)
+        self.asserts += r.get('asserts', 0)
         self.steps += r.get('steps', 0)
         self.infeasible += r.get('infeasible', 0)
         for c in r.get('cells', []):
@@ -200,7 +202,9 @@ class Report:
             self.samples.append(self.extra['sample_fallback'])
         cov = {
             'states': self.paths,
-            'transitions': self.solver_calls,
+            'transitions': self.asserts + self.solver_calls,
+            'assertions_discharged': self.asserts,
+            'solver_queries': self.solver_calls,
             'traces_validated_against_impl': self.validated,
             'samples': self.samples[:6] or ['(none)'],
             'rule': rule,
@@ -231,7 +235,7 @@ class Report:
         os.makedirs(os.path.join(VERIF, 'evidence'), exist_ok=True)
         with open(os.path.join(VERIF, 'evidence', f'{prop}.json'), 'w') as f:
             json.dump(ev, f, indent=1, default=str)
-        print(f'{prop} [{self.tier}] paths={self.paths} solver_queries={self.solver_calls} items={self.items} '
+        print(f'{prop} [{self.tier}] paths={self.paths} assertions={self.asserts} solver_queries={self.solver_calls} items={self.items} '
               f'validated={self.validated} replays={self.replays} findings={len(self.findings)} '
               f'known={sum(self.known_hit.values())} violations={len(self.violations)} '
               f'inconclusive={len(self.inconclusive)} wall={wall:.1f}s -> exit {status}')
